@@ -1,5 +1,6 @@
 import BsVerif.Model.Signals
 import BsVerif.Lemmas.Signals
+import BsVerif.Lemmas.SignalsK
 /-!
 C10 — signals reach the debuggee exactly once.  Property theorems about `BsVerif.Model.Signals`
 (the tracer's queue discipline against the kernel's ptrace rules, one thread; tables re-read from tracer.rs).
@@ -262,6 +263,58 @@ example : NoSignalInsideStep [.point, .raise 10, .kill 14, .point]
     [.brk, .start, .stepi, .send true 12, .unbrk, .cont, .cont, .cont, .drain] = true ∧
     ((D.init [.point, .raise 10, .kill 14, .point]).run
       [.brk, .start, .stepi, .send true 12, .unbrk, .cont, .cont, .cont, .drain]).k.delivered = [12, 10, 14] := by decide
+
+/-- kernel side, for every script and command history: every signal sent (by the debuggee itself or from outside,
+merged sends not counted) has entered a signal-delivery-stop or is still pending - the kernel model loses nothing -/
+theorem C10_sent_arrives_or_pending (script : List PEv) (cmds : List Cmd) (x : Sig) :
+    let d := (D.init script).run cmds
+    d.k.sent.count x = d.k.arrived.count x + d.k.pp.count x + d.k.sp.count x :=
+  D.run_stable (consStable x).toStable cmds (D.init script) (by simp [D.init, K.Cons])
+
+/-- **exactly once in terms of the signals sent** (partial): under `NoSignalInsideStep`, at every prompt every signal
+sent is accounted for exactly once - handled by the debuggee, or queued by the tracer for the next resume, or still
+pending in the kernel; never twice, never nowhere -/
+theorem C10_sent_delivered_once_partial (script : List PEv) (cmds : List Cmd)
+    (h : NoSignalInsideStep script cmds = true) (x : Sig) (hx0 : x ≠ 0) (hx : x ∉ transparent) :
+    let d := (D.init script).run cmds
+    d.k.sent.count x = d.k.delivered.count x + d.queue.count x + d.k.pp.count x + d.k.sp.count x := by
+  have h1 := (C10_delivery_once_partial script cmds h).1 x hx0 hx
+  have h2 := C10_sent_arrives_or_pending script cmds x
+  simp only [] at *
+  omega
+
+example : NoSignalInsideStep [.raise 10] [.start, .send true 12, .send false 12] = true ∧
+    ((D.init [.raise 10]).run [.start, .send true 12, .send false 12]).k.sent = [10, 12, 12] := by decide
+
+/-! ## bursts -/
+
+/-- bursts, full strength: after any history that met the hypothesis, any burst of signals (sent thread- or
+process-directed, in any number and order) interleaved with `continue`s stays within it - wherever the debuggee is stopped -/
+def C10_burst_full (script : List PEv) (cmds burst : List Cmd) : Prop :=
+  (∀ c ∈ burst, burstCmd c = true) → NoSignalInsideStep script cmds = true →
+  NoSignalInsideStep script (cmds ++ burst) = true
+
+/-- **bursts** (partial: no breakpoint is set while the burst is handled): every burst of sends and `continue`s keeps
+`NoSignalInsideStep`, so by `C10_sent_delivered_once_partial` every signal of the burst is accounted for exactly once at
+every prompt - one signal is injected per resume, none is dropped -/
+theorem C10_burst_partial (script : List PEv) (cmds burst : List Cmd)
+    (hbp : ((D.init script).run cmds).bpOn = false) : C10_burst_full script cmds burst := by
+  intro hb h
+  have := D.run_burst_flags burst ((D.init script).run cmds) hb hbp
+  simp only [NoSignalInsideStep, D.run_append] at *
+  rw [this.1]; exact h
+
+example : C10_burst_full [.raise 1] [.start] [.send true 12, .send true 10, .send false 14, .cont, .cont, .cont] ∧
+    ((D.init [.raise 1]).run [.start, .send true 12, .send true 10, .send false 14, .cont, .cont, .cont]).k.delivered
+      = [1, 10, 12, 14] := by
+  refine ⟨C10_burst_partial _ _ _ (by decide), by decide⟩
+
+/-- at a breakpoint the burst theorem fails: two signals sent while stopped at a breakpoint, `continue`, `continue` -/
+theorem C10_burst_counterexample :
+    ¬ C10_burst_full [.point] [.brk, .start] [.send true 10, .send true 12, .cont, .cont] := by
+  intro h
+  have := h (by decide) (by decide)
+  revert this; decide
 
 /-! ## the full statement is false of the unchanged code: kernel-checked witnesses -/
 
